@@ -211,14 +211,21 @@ def builders(ctx, drv):
         except Exception as e:
             ctx.violation("percolation builder raised %s" % type(e).__name__, dict(rep, error=sims.err_enum(e)))
             continue
-        impl = dict(nodes=sorted(idx[u] for u in H.nodes()), directed=H.is_directed(),
-                    edges=sorted([idx[u], idx[v], ers(d.get("delay_to_infection", INF)) if weights else None] for u, v, d in H.edges(data=True)),
-                    durations=[ers(H.nodes[u]["duration"]) if weights else None for u in G])
-        # out-component through the public helper on the real H (initially recovered removed as get_infected_nodes does)
-        H2 = H.copy()
-        for i in c["recs"]:
-            H2.remove_node(lab(i))
-        comp = sorted(idx[u] for u in sim._out_component_(H2, [lab(i) for i in c["init"]["nodes"]]))
+        try:
+            impl = dict(nodes=sorted(idx[u] for u in H.nodes()), directed=H.is_directed(),
+                        edges=sorted([idx[u], idx[v], ers(d.get("delay_to_infection", INF)) if weights else None] for u, v, d in H.edges(data=True)),
+                        durations=[ers(H.nodes[u]["duration"]) if weights else None for u in G])
+            # out-component through the public helper on the real H (initially recovered removed as get_infected_nodes does)
+            H2 = H.copy()
+            for i in c["recs"]:
+                H2.remove_node(lab(i))
+            comp = sorted(idx[u] for u in sim._out_component_(H2, [lab(i) for i in c["init"]["nodes"]]))
+        except Exception as e:
+            # a node of G missing from H, or a stated attribute missing: "same nodes, stated attributes" fails
+            ctx.case(rep)
+            ctx.violation("percolation builder: the returned graph lacks a node of G or a stated attribute (%s: %s)"
+                          % (type(e).__name__, e), dict(rep, nodes_G=len(G), nodes_H=H.number_of_nodes(), error=sims.err_enum(e)))
+            continue
         impl["out"] = comp
         reqs.append(esir_req(c, G, idx, li, [li[i] for i in c["init"]["nodes"]], [li[i] for i in c["recs"]]))
         metas.append((rep, impl, c, li))
